@@ -419,3 +419,30 @@ func Close32(got float32, ref float64, ulps float64, scale float64) bool {
 	}
 	return math.Abs(g-ref) <= ulps*Ulp32(scale)+1e-6
 }
+
+// Feasibility applies the documented refusal rule to a character recipe:
+// refused iff Length < 1, the alphabet is empty, or
+// (1-p)^maxTrials > maxFail with p the exact single-attempt success chance.
+// borderline is set when the failure chance is within 1% of the limit (the
+// library evaluates it in float32/float64; such cases assert nothing).
+func (c CharSpec) Feasibility(maxTrials int, maxFail float64) (refused, borderline bool) {
+	if c.Length < 1 || len(c.AlphabetSet()) == 0 {
+		return true, false
+	}
+	p, ok := c.PSuccess()
+	if !ok {
+		return true, false
+	}
+	if p.Sign() == 0 {
+		return true, false
+	}
+	pf, _ := p.Float64()
+	fail := math.Pow(1-pf, float64(maxTrials))
+	if pf == 1 {
+		fail = 0
+	}
+	if fail > maxFail*0.99 && fail < maxFail*1.01 {
+		return fail > maxFail, true
+	}
+	return fail > maxFail, false
+}
